@@ -37,6 +37,35 @@ def relaxations(w, rng):
     return out
 
 
+def keep_chain_worlds(ck, n):
+    """3-level hierarchies without fanout (DRAM -> GLB -> RF, RF keeps everything, GLB may keep everything): the same
+    tensor can sit in two adjacent levels, and GLB's keep set has k = 3, 2, 1 tensors, so that the smaller_keep
+    relaxation walks the chain All -> ... -> Nothing (each step only adds storage choices)."""
+    rng = random.Random(31 * ck.seed + 18)
+    out = []
+    for i in range(n):
+        bounds = [[4, 8, 8], [8, 4, 4], [4, 4, 8]][(i // 3) % 3]
+        w = mc.gen_microspec(rng, 700 + i, n_mem=3, bounds=bounds, kind="matmul")
+        mems = sorted(w["level"], key=lambda c: w["level"][c])
+        for t in w["tensors"]:
+            w["wbits"][t] = 8
+            for c in w["bits"]:
+                w["bits"][c][t] = 8
+        for c, e in zip(mems, (rng.choice([20, 16]), 4, 1)):
+            for a in w["cost"][c]["energy"]:
+                w["cost"][c]["energy"][a] = e
+                w["cost"][c]["tput"][a] = [1, 0]
+        order = list(w["tensors"])
+        rng.shuffle(order)
+        k = 3 - i % 3
+        w["keep"][mems[1]], w["maykeep"][mems[1]] = order[:k], order[k:]
+        w["keep"][mems[2]], w["maykeep"][mems[2]] = list(w["tensors"]), []
+        w["size"][mems[1]], w["size"][mems[2]] = 512, 64
+        w["mac"]["energy"], w["mac"]["tput"] = 1, [1, 1]
+        out.append(w)
+    return out
+
+
 def superset_lemma(ck, pairs):
     """role A: on the spec's mapspace a keep/may_keep relaxation only adds mappings."""
     worlds = []
@@ -64,6 +93,7 @@ def run(ck: Check):
                        "min_usage) are not exercised yet"]
     rng = random.Random(77 * ck.seed + 5)
     worlds = cc.small_worlds(ck, 3 if not thorough else 14, 1)
+    worlds += keep_chain_worlds(ck, 3 if not thorough else 9)
     configs, steps = [], {}
     lemma_pairs = []
     for w in worlds:
